@@ -1,6 +1,7 @@
 """C03 implementation driver: for each (trait description, value) runs the compiled path
 (CTrait.validate), the Python path (handler.validate) and, for compounds, every declared
 alternative alone, on the tree under test; prints canonical outcomes."""
+import copy
 import os
 import sys
 
@@ -19,6 +20,7 @@ def run_case(case):
         for i, a in enumerate(alts):
             body["a%d" % i] = pvlib.trait(a, pool0)
     host = type("Host", (pvlib.HostBase,), body)
+    pvlib.apply_later(pool0)
     hostsub = type("HostSub", (host,), {})
     pool = pvlib.Pool(host, hostsub)
     obj = host()
@@ -47,6 +49,12 @@ def run_case(case):
             out["mut"].append(tag)
         return r
     out["c"] = call("CTrait.validate", lambda v: ct.validate(obj, "x", v))
+    # the same trait after a __getstate__ / __setstate__ round trip (copy.deepcopy: member CTraits travel along)
+    try:
+        ct_restored = copy.deepcopy(ct)
+        out["cr"] = call("restored CTrait.validate", lambda v: ct_restored.validate(obj, "x", v))
+    except Exception:
+        out["cr"] = None
     pyv = getattr(h, "validate", None) if h is not None else None
     out["p"] = call("handler.validate", lambda v: pyv(obj, "x", v)) if pyv is not None else None
     if alts is not None:
